@@ -166,6 +166,10 @@ func normalisePackage(m *Module, p *packages.Package) int {
 	if len(in.fresh) == 0 && len(in.freshVars) == 0 {
 		return 0
 	}
+	// new tables of constants are made known to the evaluator whether or not a lookup statement is rewritten
+	for v := range in.freshVars {
+		in.tableOfVar(v)
+	}
 	var objs []*types.Func
 	for o := range in.decls {
 		objs = append(objs, o)
@@ -173,6 +177,67 @@ func normalisePackage(m *Module, p *packages.Package) int {
 	sort.Slice(objs, func(i, j int) bool { return objs[i].Pos() < objs[j].Pos() })
 	for _, o := range objs {
 		in.normalise(o)
+	}
+	// locals defined once by a lookup in a new table: v := T[k]
+	for _, o := range objs {
+		fd := in.decls[o]
+		if fd == nil || fd.Body == nil {
+			continue
+		}
+		ast.Inspect(fd.Body, func(n ast.Node) bool {
+			as, ok := n.(*ast.AssignStmt)
+			if !ok || as.Tok != token.DEFINE || len(as.Lhs) != 1 || len(as.Rhs) != 1 {
+				return true
+			}
+			ie, isIE := unparen(as.Rhs[0]).(*ast.IndexExpr)
+			if !isIE {
+				return true
+			}
+			tv, isV := objOf(in.info, ie.X).(*types.Var)
+			if !isV || !in.freshVars[tv] || in.tableOfVar(tv) == nil {
+				return true
+			}
+			v := objOf(in.info, as.Lhs[0])
+			if v == nil {
+				return true
+			}
+			cnt := 0
+			ast.Inspect(fd.Body, func(m ast.Node) bool {
+				switch s := m.(type) {
+				case *ast.AssignStmt:
+					for _, l := range s.Lhs {
+						if sameVar(in.info, l, v) {
+							cnt++
+						}
+					}
+				case *ast.UnaryExpr:
+					if s.Op == token.AND && sameVar(in.info, s.X, v) {
+						cnt += 2
+					}
+				case *ast.IncDecStmt:
+					if sameVar(in.info, s.X, v) {
+						cnt += 2
+					}
+				}
+				return true
+			})
+			// the key must not change between the lookup and the uses: a parameter or local never assigned again
+			stable := true
+			ast.Inspect(ie.Index, func(m ast.Node) bool {
+				if id, isID := m.(*ast.Ident); isID {
+					if kv, isKV := in.info.Uses[id].(*types.Var); isKV && !kv.IsField() && assignedIn(in.info, fd.Body, kv) {
+						stable = false
+					}
+				}
+				return true
+			})
+			if cnt == 1 && stable {
+				constTablesMu.Lock()
+				tableLookupDefs[v] = as.Rhs[0]
+				constTablesMu.Unlock()
+			}
+			return true
+		})
 	}
 	// helpers every call of which was expanded are no longer part of the program the rules look at
 	live := map[*types.Func]bool{}
@@ -350,9 +415,15 @@ func (in *inliner) simpleBody(fd *ast.FuncDecl, f *types.Func, anyReturns bool) 
 	for i := 0; i < sig.Params().Len(); i++ {
 		params[sig.Params().At(i)] = true
 	}
+	movable := in.movableDefers(fd)
 	ast.Inspect(fd.Body, func(n ast.Node) bool {
 		switch x := n.(type) {
-		case *ast.DeferStmt, *ast.GoStmt, *ast.LabeledStmt:
+		case *ast.DeferStmt:
+			// `defer g(v…)` at the top level of a single-exit body runs right after the body: it can be moved there
+			if anyReturns || !movable[x] {
+				ok = false
+			}
+		case *ast.GoStmt, *ast.LabeledStmt:
 			ok = false
 		case *ast.BranchStmt:
 			if x.Tok == token.GOTO || x.Label != nil {
@@ -634,9 +705,24 @@ func (in *inliner) expand(call *ast.CallExpr, fd *ast.FuncDecl, f *types.Func, e
 	if exprOnly && len(body) > 0 {
 		return nil, nil, false
 	}
+	var deferred []ast.Stmt
 	for _, s := range body {
+		if d, isD := s.(*ast.DeferStmt); isD {
+			// runs when the helper returns: after the rest of its body, last deferred first
+			deferred = append([]ast.Stmt{&ast.ExprStmt{X: cp.node(d.Call).(ast.Expr)}}, deferred...)
+			continue
+		}
 		pre = append(pre, cp.node(s).(ast.Stmt))
 	}
+	if len(deferred) > 0 && ret != nil {
+		// the results are evaluated before the deferred calls run: they must be plain variables the deferred calls cannot change
+		for _, r := range ret.Results {
+			if _, isID := unparen(r).(*ast.Ident); !isID {
+				return nil, nil, false
+			}
+		}
+	}
+	pre = append(pre, deferred...)
 	if ret != nil {
 		if len(ret.Results) == 0 {
 			// named results
@@ -1743,4 +1829,66 @@ func (in *inliner) expandMulti(as *ast.AssignStmt, call *ast.CallExpr, fd *ast.F
 	}
 	in.count++
 	return out, true
+}
+
+// movableDefers: the defer statements of fd that stand at the top level of its body and call a declared function or method
+// with plain variables as arguments (receiver included) that are not assigned after the defer — such a call does the same
+// when it is made at the end of the body instead. (Panics are outside what the rules talk about.)
+func (in *inliner) movableDefers(fd *ast.FuncDecl) map[*ast.DeferStmt]bool {
+	out := map[*ast.DeferStmt]bool{}
+	for i, s := range fd.Body.List {
+		d, ok := s.(*ast.DeferStmt)
+		if !ok {
+			continue
+		}
+		if _, isLit := unparen(d.Call.Fun).(*ast.FuncLit); isLit {
+			continue
+		}
+		if callee(in.info, d.Call) == nil {
+			continue
+		}
+		good := true
+		var vars []types.Object
+		collect := func(e ast.Expr) {
+			switch x := unparen(e).(type) {
+			case *ast.Ident:
+				if o := in.info.Uses[x]; o != nil {
+					if _, isV := o.(*types.Var); isV {
+						vars = append(vars, o)
+					}
+				}
+			case *ast.BasicLit:
+			default:
+				good = false
+			}
+		}
+		for _, a := range d.Call.Args {
+			collect(a)
+		}
+		if sel, isSel := unparen(d.Call.Fun).(*ast.SelectorExpr); isSel {
+			if s := in.info.Selections[sel]; s != nil {
+				// method call: the receiver must be a plain variable or a field path of one
+				root := unparen(sel.X)
+				for {
+					if se, isSe := root.(*ast.SelectorExpr); isSe {
+						root = unparen(se.X)
+						continue
+					}
+					break
+				}
+				collect(root)
+			}
+		}
+		for _, later := range fd.Body.List[i+1:] {
+			for _, v := range vars {
+				if assignedIn(in.info, later, v) {
+					good = false
+				}
+			}
+		}
+		if good {
+			out[d] = true
+		}
+	}
+	return out
 }
